@@ -38,6 +38,7 @@ Not proved here (listed explicitly):
 -/
 import NetqasmVerif.Lemmas.AsmBuild
 import NetqasmVerif.Lemmas.AsmMacros
+import NetqasmVerif.Lemmas.AsmPure
 import NetqasmVerif.Lemmas.AsmExec
 import NetqasmVerif.Lemmas.AsmTextOperand
 import NetqasmVerif.Props.TextObligations
@@ -434,6 +435,40 @@ theorem F42_reserved_witness :
     (assembleProto Gen.excTable Gen.numScratch [.instr "store" [] [.lit 7, .entry 0 (.reg ⟨0, 1⟩)]]).toOption
       = some [.instr "set" [] [.reg ⟨0, 0⟩, .lit 7], .instr "store" [] [.reg ⟨0, 0⟩, .entry 0 (.reg ⟨0, 1⟩)]] := by
   decide +kernel
+
+/-! ## the assembler is a function of the command VALUES
+
+IR built by programs shares objects (one ICmd object used twice, one operands list or one
+ArrayEntry / ArraySlice object used by several commands), may sit in a container whose `commands`
+accessor hands out copies, and may be assembled more than once.  The model has no object identity;
+the differential streams `ir:*` of checks/c03.py check that the real `assemble_subroutine` gives,
+for every such IR, the subroutine of the IR with fresh objects (= the model on `deref`).
+The code rewrites the IR in place BY DESIGN (`pre_subroutine.commands` holds the assembled commands
+afterwards), so "the input IR is unchanged" is not promised; what is promised and proved for the
+model is that assembling the rewritten IR again changes nothing (`assemble_twice`).  Finding F47
+(fixed): before the fix the literals were replaced inside the shared objects themselves. -/
+
+theorem imm_exempt : Gen.vanillaRows.all (fun r => immExempt Gen.excTable r.mn 0 r.shape) = true :=
+  AsmObl.imm_exempt
+
+/-- **`assemble_pure`.**  Two IRs with the same command values — however their command, operands-list
+and operand objects are shared — assemble to the same subroutine. -/
+theorem assemble_pure (reserved : List Reg) (ir₁ ir₂ : IR) (h : ir₁.deref = ir₂.deref) :
+    assembleIR Gen.vanillaRows Gen.excTable Gen.numScratch ir₁ reserved =
+      assembleIR Gen.vanillaRows Gen.excTable Gen.numScratch ir₂ reserved :=
+  Asm.assemble_pure _ _ _ reserved ir₁ ir₂ h
+
+/-- **assembling the same ProtoSubroutine twice** gives the same subroutine (any reserved sets) -/
+theorem assemble_twice {P : List PCmd} {A : List Instr} {reserved : List Reg}
+    (h : assemble Gen.vanillaRows Gen.excTable Gen.numScratch P reserved = .ok A) (reserved' : List Reg) :
+    assemble Gen.vanillaRows Gen.excTable Gen.numScratch (A.map (embed Gen.vanillaRows)) reserved' = .ok A :=
+  Asm.assemble_twice tableOk_vanilla imm_exempt h reserved'
+
+/-- one ICmd object used twice: its value appears twice in `deref` -/
+example : (IR.deref ⟨[0, 1, 0], fun c => if c = 0 then some (.inr ("add", [], 0)) else some (.inl "L"),
+    fun _ => [0, 0, 1], fun o => if o = 0 then .reg ⟨0, 0⟩ else .lit 1⟩) =
+    [.instr "add" [] [.reg ⟨0, 0⟩, .reg ⟨0, 0⟩, .lit 1], .label "L", .instr "add" [] [.reg ⟨0, 0⟩, .reg ⟨0, 0⟩, .lit 1]] := by
+  decide
 
 /-! ## macros -/
 
